@@ -83,9 +83,22 @@ def well_formed_errors(errors) -> Optional[str]:
         if not isinstance(e["loc"], list):
             return "loc is not a list"
         for k in e["loc"]:
-            if isinstance(k, bool) or not isinstance(k, (str, int)):
-                return "loc element is neither str nor int"
+            if not json_like(k):
+                if isinstance(k, bytes):
+                    return "loc element is a bytes key of the data (not JSON-serializable)"
+                return "loc element is not JSON-serializable"
     return None
+
+
+def json_like(x) -> bool:
+    """what json.dumps accepts (the statement: `errors` is JSON-serializable)"""
+    if x is None or isinstance(x, (str, int, float, bool)):
+        return True
+    if isinstance(x, (list, tuple)):
+        return all(json_like(v) for v in x)
+    if isinstance(x, dict):
+        return all(isinstance(k, (str, int, float, bool)) or k is None for k in x) and all(json_like(v) for v in x.values())
+    return False
 
 
 class E2E:
